@@ -33,6 +33,10 @@ pub struct RuleSpec
     /// "a failing command writes nothing"
     #[serde(default)]
     pub late_fail: bool,
+    /// the rule has an EMPTY command section (the parser accepts it; ruler reports "no command executed" for it when it is
+    /// reached, so it always fails)
+    #[serde(default)]
+    pub empty_cmd: bool,
 }
 
 #[derive(Clone, Debug, Serialize, Deserialize, PartialEq)]
@@ -46,14 +50,18 @@ pub struct GraphSpec
     pub two_files: bool,
     pub bundle: bool,
     pub render_seed: u16,
+    /// some names start with a dot (next to a file of the same name without it) or contain non-ASCII letters
+    #[serde(default)]
+    pub odd_names: bool,
 }
 
 pub const CONTENT_POOL: [&str; 5] = ["v0", "v1", "v2", "v3", "v4"];
 
 /// Number of distinct user file contents.  Indices 0..5 are the short pool above (also what `failon` lines compare
-/// against); 5 is the EMPTY file, 6 is exactly one 256-byte hashing block, 7 spans three blocks.  Older replay files only
-/// use 0..5 and keep their meaning.
-pub const N_CONTENTS: u8 = 8;
+/// against); 5 is the EMPTY file, 6 is exactly one 256-byte hashing block, 7 and 8 span three blocks and differ only in
+/// their last bytes (far beyond the first block), 9 is not valid UTF-8.  Older replay files only use 0..5 and keep their
+/// meaning.
+pub const N_CONTENTS: u8 = 10;
 
 pub fn content(idx: u8) -> Vec<u8>
 {
@@ -62,7 +70,9 @@ pub fn content(idx: u8) -> Vec<u8>
         i @ 0..=4 => CONTENT_POOL[i as usize].as_bytes().to_vec(),
         5 => vec![],
         6 => (0..256usize).map(|i| b'a' + (i % 23) as u8).collect(),
-        _ => (0..700usize).map(|i| b'A' + (i % 19) as u8).collect(),
+        7 => (0..700usize).map(|i| b'A' + (i % 19) as u8).collect(),
+        8 => (0..700usize).map(|i| if i >= 690 { b'z' } else { b'A' + (i % 19) as u8 }).collect(),
+        _ => vec![0xff, 0xfe, 0x80, 0x01, b'b', b'i', b'n', 0xc3, 0x28, 0xf0],
     }
 }
 
@@ -90,8 +100,9 @@ pub fn rule_spec_ext(max_targets: u8, allow_fail: bool, allow_late_fail: bool) -
         },
         0u8..3,
         any::<bool>(),
-    ).prop_map(move |(n_targets, srcs, kinds, exec, split, multi_line, failon, const_tag, late)|
-        RuleSpec { n_targets, srcs, kinds, exec, split, multi_line, failon, const_tag, late_fail: late && allow_late_fail })
+        if allow_fail { prop_oneof![24 => Just(false), 1 => Just(true)].boxed() } else { Just(false).boxed() },
+    ).prop_map(move |(n_targets, srcs, kinds, exec, split, multi_line, failon, const_tag, late, empty_cmd)|
+        RuleSpec { n_targets, srcs, kinds, exec, split, multi_line, failon, const_tag, late_fail: late && allow_late_fail, empty_cmd })
 }
 
 pub fn graph_spec(max_rules: usize, allow_fail: bool) -> impl Strategy<Value = GraphSpec>
@@ -110,8 +121,9 @@ pub fn graph_spec_ext(max_rules: usize, allow_fail: bool, allow_late_fail: bool)
         prop_oneof![3 => Just(false), 1 => Just(true)],
         any::<bool>(),
         any::<u16>(),
-    ).prop_map(|(n_leaves, leaf_contents, rules, name_seed, dirs, two_files, bundle, render_seed)|
-        GraphSpec { n_leaves, leaf_contents, rules, name_seed, dirs, two_files, bundle, render_seed })
+        prop_oneof![3 => Just(false), 1 => Just(true)],
+    ).prop_map(|(n_leaves, leaf_contents, rules, name_seed, dirs, two_files, bundle, render_seed, odd_names)|
+        GraphSpec { n_leaves, leaf_contents, rules, name_seed, dirs, two_files, bundle, render_seed, odd_names })
 }
 
 /// Name allocator: a permutation of f00..f95 so alphabetical and dependency order are
@@ -125,7 +137,7 @@ pub struct Names
 
 impl Names
 {
-    pub fn new(seed: u16, dirs: bool) -> Names
+    pub fn new(seed: u16, dirs: bool, odd: bool) -> Names
     {
         let mut ids: Vec<usize> = (0..96).collect();
         let mut r = XorShift::new(seed as u64 + 1);
@@ -140,7 +152,11 @@ impl Names
         let pool = ids.iter().map(|i|
         {
             // some names are another name plus a suffix (f04 / f04.b): prefix relations between unrelated paths
-            let base = if i % 8 == 5 { format!("f{:02}.b", i - 1) } else { format!("f{:02}", i) };
+            let base = if i % 8 == 5 { format!("f{:02}.b", i - 1) }
+                // hidden file next to the plain file of the same name (f02 / .f02); a name with multi-byte letters
+                else if odd && i % 8 == 3 { format!(".f{:02}", i - 1) }
+                else if odd && i % 8 == 7 { format!("f\u{e9}\u{2713}{:02}", i) }
+                else { format!("f{:02}", i) };
             if dirs
             {
                 match i % 8
@@ -220,12 +236,16 @@ pub fn build_rule(spec: &RuleSpec, candidates: &[String], leaves: &[String], nam
         }
     }
     chains.push(chain);
+    if spec.empty_cmd
+    {
+        chains.clear();
+    }
     MRule { targets, sources, script: chains, split: spec.split, file, shell: false }
 }
 
 pub fn build_model(g: &GraphSpec) -> (Model, Names)
 {
-    let mut names = Names::new(g.name_seed, g.dirs);
+    let mut names = Names::new(g.name_seed, g.dirs, g.odd_names);
     let nl = g.n_leaves.max(1) as usize;
     let leaves: Vec<String> = (0..nl).map(|_| names.fresh()).collect();
     let mut files = BTreeMap::new();
